@@ -113,19 +113,35 @@ class MechAdapter(Adapter):
     def names(self, obj):
         return list(obj.parameters())
 
-    def evaluate(self, obj, v, full_mask=None):
+    def prime(self, obj):
+        """sensitivities are switched on BEFORE the fixing history, and stay on"""
+        obj.enable_sensitivities(True)
+
+    def evaluate(self, obj, v, full_mask=None, primed=False):
         v = np.array(v, dtype=float)
-        obj.enable_sensitivities(False)
-        out = dict(sim=obj.simulate(v, TIMES))
+        out = {}
         nfree = len(v) if full_mask is None else int(np.sum(~full_mask))
-        if nfree > 0:                     # with every parameter fixed there is nothing to differentiate
-            if full_mask is None:
-                obj.enable_sensitivities(True)
-            else:
+        def with_sens(switch_on):
+            """(outputs, sensitivities w.r.t. the free parameters); with every parameter fixed the plain model has
+            nothing to differentiate and the expected sensitivities are an empty (T, n_outputs, 0) array"""
+            if full_mask is not None and nfree == 0:
+                obj.enable_sensitivities(False)
+                o = obj.simulate(v, TIMES)
+                return o, np.empty((len(TIMES), len(o), 0))
+            if full_mask is not None:
                 obj.enable_sensitivities(True, [n for n, m in zip(self._names, full_mask) if not m])
-            o, s = obj.simulate(v, TIMES)
-            out['sim_s'] = o
-            out['sens'] = s
+            elif switch_on:
+                obj.enable_sensitivities(True)
+            elif not obj.has_sensitivities():
+                raise AssertionError('sensitivities switched off by fix_parameters')
+            return obj.simulate(v, TIMES)
+        if primed:
+            # sensitivities were on through the whole history: the object must still deliver them, for exactly its free
+            # parameters, without being told again
+            out['sim_primed'], out['sens_primed'] = with_sens(False)
+        obj.enable_sensitivities(False)
+        out['sim'] = obj.simulate(v, TIMES)
+        out['sim_s'], out['sens'] = with_sens(True)
         # a copy behaves like its original (sensitivities switched off on both sides)
         c = obj.copy()
         c.enable_sensitivities(False)
@@ -240,9 +256,18 @@ class LLAdapter(Adapter):
     def plain(self):
         return self._plain()
 
-    def evaluate(self, obj, v, full_mask=None):
+    def prime(self, obj):
+        """a gradient evaluation BEFORE the fixing history leaves the mechanistic model with sensitivities on"""
+        obj.evaluateS1(np.array(self.base_values()))
+
+    def evaluate(self, obj, v, full_mask=None, primed=False):
         v = np.array(v, dtype=float)
-        out = dict(call=obj(v), pw=obj.compute_pointwise_ll(v))
+        out = {}
+        if primed:
+            s, g = obj.evaluateS1(v)
+            g = np.asarray(g, dtype=float)
+            out.update(s1_first_score=s, s1_first=g if full_mask is None else g[~full_mask])
+        out.update(call=obj(v), pw=obj.compute_pointwise_ll(v))
         s, g = obj.evaluateS1(v)
         g = np.asarray(g, dtype=float)
         if full_mask is not None:
@@ -258,7 +283,10 @@ class PMAdapter(LLAdapter):
         mech = probes.ProbeMech(2, 2, tag='fixpm')
         return chi.PredictiveModel(mech, [chi.GaussianErrorModel(), chi.ConstantAndMultiplicativeGaussianErrorModel()])
 
-    def evaluate(self, obj, v, full_mask=None):
+    def prime(self, obj):
+        pass
+
+    def evaluate(self, obj, v, full_mask=None, primed=False):
         v = np.array(v, dtype=float)
         return dict(sample=obj.sample(v, [2.0, 0.5, 1.0], n_samples=2, seed=3, return_df=False),
                     sample_again=obj.sample(v, [2.0, 0.5, 1.0], n_samples=2, seed=3, return_df=False))
@@ -315,6 +343,11 @@ def replay_case(arg):
             warnings.simplefilter('error', RuntimeWarning)
             obj = ad.make()
             long_history = bool(rng.integers(2))
+            primed = hasattr(ad, 'prime') and bool(rng.integers(2))
+            if primed:
+                ad.prime(obj)
+                cnt['primed_histories'] = 1
+                feats.append('primed')
             if long_history:
                 d0 = {k: str(rng.choice(['x', 'y', 'None', 'Absent'])) for k in 'abc'}
                 ad.fix(obj, real_dict(ad, d0))
@@ -339,7 +372,7 @@ def replay_case(arg):
             base = ad.base_values()
             full = np.array([fixed_real.get(n, round(b * (1 + 0.07 * (i + 1)), 4)) for i, (n, b) in enumerate(zip(all_names, base))])
             v = full[~mask]
-            extra = {'full': full} if isinstance(ad, PopAdapter) else {}
+            extra = {'full': full} if isinstance(ad, PopAdapter) else ({'primed': True} if primed else {})
             got = ad.evaluate(obj, v.copy(), **extra)
             exp = ad.evaluate(ad.plain(), full.copy(), full_mask=mask, **extra)
             cnt['evaluations'] = len(got)
@@ -347,7 +380,7 @@ def replay_case(arg):
             missing = [k for k in exp if k not in got]
             if bad or missing:
                 fail('SubstitutionOK', '+'.join(bad + missing), dict(
-                    long_history=long_history, got={k: np.asarray(got[k]).tolist() for k in bad},
+                    long_history=long_history, primed=primed, got={k: np.asarray(got[k]).tolist() for k in bad},
                     expected={k: np.asarray(exp[k]).tolist() for k in bad}))
     except Exception as e:
         fail('Evaluable', type(e).__name__, repr(e))
